@@ -618,10 +618,24 @@ Proof.
         apply Nat.leb_le in HT1. repeat split; [|exact HT1|apply forallb_Forall; exact HT2].
         intros ->. discriminate.
       * intros c _ Hc. cbn [post]. apply set_column_kept; assumption.
-    + eapply post_bind.
-      * apply (post_weaken (col_ok (phys_len f)) (col_ok (phys_len f)) _ _ _ (const_col_ok k (phys_len f))); [intros a _ Ha; exact Ha|].
-        destruct k; cbn; auto; intro HT; discriminate HT.
-      * intros c _ Hc. cbn [post]. apply set_column_kept; assumption.
+    + destruct (Nat.eqb (length (ix f)) (phys_len f)).
+      * eapply post_bind.
+        -- apply (post_weaken (col_ok (phys_len f)) (col_ok (phys_len f)) _ _ _ (const_col_ok k (phys_len f))); [intros a _ Ha; exact Ha|].
+           destruct k; cbn; auto; intro HT; discriminate HT.
+        -- intros c _ Hc. cbn [post]. apply set_column_kept; assumption.
+      * destruct (const_type k) as [t|] eqn:Ek.
+        -- replace (do cells <- scatter (repeat (zero_cell t) (phys_len f)) (ix f) (repeat k (length (ix f)));
+                    do c <- col_of_cells t cells; Ok (set_column f (idst i) c))
+             with (do c <- (do cells <- scatter (repeat (zero_cell t) (phys_len f)) (ix f) (repeat k (length (ix f)));
+                            col_of_cells t cells);
+                   Ok (set_column f (idst i) c))
+             by (destruct (scatter (repeat (zero_cell t) (phys_len f)) (ix f) (repeat k (length (ix f)))); reflexivity).
+           eapply post_bind.
+           ++ apply scatter_col_post; [apply H|]. intros _.
+              destruct k; inversion Ek; subst; (split; [discriminate|]); (split; [rewrite repeat_length; lia|]);
+                apply repeat_Forall; reflexivity.
+           ++ intros c _ Hc. cbn [post]. apply set_column_kept; assumption.
+        -- destruct k; try discriminate Ek. cbn. intro HT; discriminate HT.
     + cbn [post]. apply copy_kept. exact H.
   - unfold apply1. destruct (ferr f); [apply kept_refl; exact H|].
     destruct (lookup_col f (isrc1 i)) as [c|] eqn:El; [|apply kept_err; exact H].
@@ -1748,14 +1762,39 @@ Proof.
   unfold apply2. rewrite Hf, Hl1, Hl2. unfold col_apply2. rewrite Ht. reflexivity.
 Qed.
 
-(* an illegal destination name *)
+(* the array of a constant over an index within the columns, and its column, exist *)
+Lemma const_scatter_total t n index k :
+  t <> TEnum -> cell_type_ok t k = true -> Forall (fun p => p < n) index ->
+  exists cells c, scatter (repeat (zero_cell t) n) index (repeat k (length index)) = Ok cells /\ col_of_cells t cells = Ok c.
+Proof.
+  intros Ht Hk Hin.
+  assert (Hbase : Forall (fun p => p < length (repeat (zero_cell t) n)) index) by (rewrite repeat_length; exact Hin).
+  destruct (scatter_ok index (repeat (zero_cell t) n) (repeat k (length index)) (repeat_length _ _) Hbase) as [arr [Harr _]].
+  assert (Hok : Forall (fun y => cell_type_ok t y = true) arr).
+  { eapply scatter_Forall; [| |exact Harr]; apply repeat_Forall; [apply zero_cell_ok; exact Ht|exact Hk]. }
+  destruct (col_of_cells_spec t arr Ht Hok) as [r [Hr _]]. exists arr, r. split; assumption.
+Qed.
+
+(* an illegal destination name (the index covers the columns, or at least stays within them: otherwise writing the
+   constant through the index is an index-out-of-range fault before the name is looked at) *)
 Lemma apply_illegal_name ut f k dst :
   ferr f = false -> check_name dst = false -> (forall s, k <> CEnum s) ->
+  (length (ix f) = phys_len f \/ Forall (fun p => p < phys_len f) (ix f)) ->
   exists g, apply_instr ut f (mkInstr (F0Const k) dst [] []) = Ok g /\ ferr g = true.
 Proof.
-  intros Hf Hn Hk. unfold apply_instr. cbn [isrc1 isrc2 ifn idst empty_name length Nat.eqb]. unfold apply0. rewrite Hf.
-  destruct k; cbn [const_col obind]; try (eexists; split; [reflexivity|apply set_column_bad_name; exact Hn]).
-  exfalso. eapply Hk. reflexivity.
+  intros Hf Hn Hk Hix. unfold apply_instr. cbn [isrc1 isrc2 ifn idst empty_name length Nat.eqb]. unfold apply0. rewrite Hf.
+  destruct (Nat.eqb (length (ix f)) (phys_len f)) eqn:El.
+  - destruct k; cbn [const_col obind]; try (eexists; split; [reflexivity|apply set_column_bad_name; exact Hn]).
+    exfalso. eapply Hk. reflexivity.
+  - assert (Hin : Forall (fun p => p < phys_len f) (ix f)).
+    { destruct Hix as [E|Hin]; [apply Nat.eqb_neq in El; contradiction|exact Hin]. }
+    assert (G : forall t, t <> TEnum -> cell_type_ok t k = true ->
+              exists g, (do cells <- scatter (repeat (zero_cell t) (phys_len f)) (ix f) (repeat k (length (ix f)));
+                         do col <- col_of_cells t cells; Ok (set_column f dst col)) = Ok g /\ ferr g = true).
+    { intros t Ht Hc. destruct (const_scatter_total t (phys_len f) (ix f) k Ht Hc Hin) as [cells [c [H1 H2]]].
+      rewrite H1. cbn [obind]. rewrite H2. cbn [obind]. eexists. split; [reflexivity|apply set_column_bad_name; exact Hn]. }
+    destruct k; cbn [const_type]; try (apply G; [discriminate|reflexivity]).
+    exfalso. eapply Hk. reflexivity.
 Qed.
 
 Lemma new_frame_illegal_name data order enums :
@@ -1912,6 +1951,7 @@ Proof. induction l; constructor; auto. Qed.
 Lemma enum_new_post data values : postf (fun c => col_wf c = true) True (enum_new data values).
 Proof.
   unfold enum_new. destruct (N.to_nat c_maxCardinality <? length values) eqn:E; [exact I|]. apply Nat.ltb_ge in E.
+  destruct (negb (nodup_bytes values)); [exact I|].
   eapply postf_bind.
   - apply (ofold_postf _ enum_state_ok True (fun _ => True)); [intros b x _ Hb; apply enum_step_post; exact Hb|apply Forall_True|].
     split; [constructor|exact E].
@@ -1926,6 +1966,7 @@ Proof. intro H. induction n; simpl; [reflexivity|]. rewrite H, IHn. reflexivity.
 Lemma enum_new_const_post v n values : postf (fun c => col_wf c = true) True (enum_new_const v n values).
 Proof.
   unfold enum_new_const. destruct (N.to_nat c_maxCardinality <? length values) eqn:E; [exact I|]. apply Nat.ltb_ge in E.
+  destruct (negb (nodup_bytes values)); [exact I|].
   destruct v as [b|].
   - destruct (find_value_last values b) as [r|] eqn:Ef.
     + cbn [postf col_wf]. apply andb_true_iff. split; [|apply Nat.leb_le; exact E].
@@ -1957,6 +1998,7 @@ Proof.
   destruct (negb (length order' =? length data)); [exact Herr|].
   destruct (forallb (fun n => match assocb n data with Some _ => true | None => false end) order') eqn:Eall;
     [|exact Herr]. cbn [negb].
+  destruct (negb (nodup_bytes order')); [exact Herr|].
   match goal with |- post _ _ (match ofold ?st order' ?init with _ => _ end) => set (step := st) end.
   pose (Inv := fun st : list (bytes * coldata) * nat * list bytes =>
                  wf_cols (snd (fst st)) (fst (fst st)) /\ (fst (fst st) = [] -> snd (fst st) = 0)).
